@@ -64,6 +64,11 @@ def run(ctx: Any, prog: Program) -> None:
                         out.append(f'open(..., {n.args[1].value!r})')     # one of the archive's own files
                 if isinstance(n.func, ast.Attribute) and n.func.attr in ('pop', 'clear', 'update', 'setdefault', 'popitem') and (dotted(n.func.value) or '').startswith(('self._fileinfo', 'files', 'folders', 'ext_infos', 'dir_infos')):
                     out.append(ast.unparse(n.func))
+        for n in walk_no_nested(fn):
+            if isinstance(n, ast.Delete):
+                for t in n.targets:
+                    if isinstance(t, ast.Subscript) and (dotted(t.value) or '').startswith(('self._fileinfo', 'files', 'folders', 'ext_infos', 'dir_infos')):
+                        out.append('del ' + ast.unparse(t.value))
         # locals aliasing the file table (dir_infos[name] = ...)
         for n in walk_no_nested(fn):
             if isinstance(n, ast.Assign):
@@ -324,6 +329,25 @@ def run(ctx: Any, prog: Program) -> None:
                         break
                 cur = par_
             if guard is None:
+                # guard clause form: `if <child>: return` earlier in the same statement list
+                stmt_: Any = n
+                while stmt_ is not None and not isinstance(stmt_, ast.stmt):
+                    stmt_ = vpk.parents.get(stmt_)
+                holder = vpk.parents.get(stmt_)
+                blk_ = next((b for b in (getattr(holder, 'body', []), getattr(holder, 'orelse', [])) if stmt_ in b), [])
+                early = [p_ for p_ in blk_[:blk_.index(stmt_)] if isinstance(p_, ast.If) and p_.body and isinstance(p_.body[-1], (ast.Return, ast.Raise, ast.Continue))
+                         and any(isinstance(x, ast.Name) and x.id == child[0] for x in ast.walk(p_.test))] if stmt_ in blk_ else []
+                if early:
+                    et = ast.unparse(early[-1].test)
+                    if et in (child[0], f'len({child[0]}) > 0', f'len({child[0]}) != 0', f'{child[0]} != {{}}'):
+                        ctx.check('C13.Z9', True, vpk, n, 'early return while the container still has entries', func=f'VPK.{name}', text=f'{name}: drop of {cont}[{key}] guarded by emptiness of {child[0]}')
+                        continue
+                    if re.search(r'\b(any|all)\(\s*' + re.escape(child[0]) + r'\s*\)', et):
+                        ctx.check('C13.Z9', False, vpk, n, f'VPK.{name} keeps `{cont}[{key}]` only when `{et}`: any()/all() over a dict look at the truthiness of its KEYS, and the archive root is stored under the empty string',
+                                  func=f'VPK.{name}', text=f'{name}: drop of {cont}[{key}] guarded by emptiness of {child[0]}')
+                        continue
+                    ctx.shape('C13.Z9', False, vpk, n, f'guard clause `{et}` before the drop of `{cont}[{key}]` is not an enumerated emptiness test', func=f'VPK.{name}', text=f'{name}: drop of {cont}[{key}] guarded by emptiness of {child[0]}')
+                    continue
                 ctx.check('C13.Z9', False, vpk, n, f'VPK.{name} drops `{cont}[{key}]` without testing that `{child[0]}` is empty', func=f'VPK.{name}', text=f'{name}: drop of {cont}[{key}] guarded by emptiness of {child[0]}')
                 continue
             gs = ast.unparse(guard)
@@ -412,6 +436,15 @@ def run(ctx: Any, prog: Program) -> None:
                       func='FileInfo.write', text='preload bounded to 16 bits')
         else:
             consts = {c.value for n in clamps for c in ast.walk(n) if isinstance(c, ast.Constant) and isinstance(c.value, int)}
+            for n in clamps:                    # named module constants (`_MAX_DIR_DATA = 0xFFFF`) stand for their value
+                for c in ast.walk(n):
+                    if isinstance(c, ast.Name):
+                        try:
+                            v_ = fold.fold(c, {})
+                        except Exception:
+                            continue
+                        if isinstance(v_, int) and not isinstance(v_, bool):
+                            consts.add(v_)
             ctx.shape('C13.Z6', bool(consts & {0xffff, 0x10000}), vpk, clamps[0], 'clamp constant', func='FileInfo.write', text='preload bounded to 16 bits')
     else:
         ctx.shape('C13.Z6', False, vpk, w, 'preload slice bound not recognised', func='FileInfo.write', text='preload bounded to 16 bits')
